@@ -235,12 +235,35 @@ def stack_summaries():
         v = load(ctx, a[0])
         return v if isinstance(v, Obj) and v.kind == "operand" else NotImplemented
 
+    def extend_from_within(ctx, a, ty, c):
+        s = stk(ctx, a[0])
+        if s is None:
+            return NotImplemented
+        r = a[1]
+        n = len(s.items)
+        lo_hi = []
+        for x in (r.fields[0], r.fields[1]):
+            i = ctx.force(x).e
+            k = ctx.branch([i == z3.BitVecVal(j, 64) for j in range(n + 1)] + [z3.UGT(i, z3.BitVecVal(n, 64))])
+            if k == n + 1:
+                from mirsmt.interp import PathEnd
+                raise PathEnd("panic", "range out of bounds")
+            lo_hi.append(k)
+        lo, hi = lo_hi
+        hi = hi + 1 if "RangeInclusive" in c else hi
+        if hi > n:
+            from mirsmt.interp import PathEnd
+            raise PathEnd("panic", "range end out of bounds")
+        s.items.extend(s.items[lo:hi])
+        return UNIT
+
     def ident(ctx, a, ty, c):
         return a[0] if stk(ctx, a[0]) is not None else NotImplemented
     return [(r"^Vec::<Arc<SymbolicValue<\(\)>>>::len$", vlen), (r"^Vec::<Arc<SymbolicValue<\(\)>>>::is_empty$", is_empty),
             (r"^Vec::<Arc<SymbolicValue<\(\)>>>::push$", push), (r"^Vec::<Arc<SymbolicValue<\(\)>>>::pop$", pop),
             (r"^<Vec<Arc<SymbolicValue<\(\)>>> as (Index|IndexMut)<usize>>::(index|index_mut)$", index),
             (r"^core::slice::<impl \[Arc<SymbolicValue<\(\)>>\]>::swap$", swap),
+            (r"^Vec::<Arc<SymbolicValue<\(\)>>>::extend_from_within::<.*>$", extend_from_within),
             (r"^<Vec<Arc<SymbolicValue<\(\)>>> as (Deref|DerefMut)>::(deref|deref_mut)$", ident),
             (r"^<Arc<SymbolicValue<\(\)>> as Clone>::clone$", clone)]
 
@@ -260,7 +283,33 @@ def stack_kernel(out, eng, tier):
     t0 = time.time()
     bad = None
     n_paths = 0
+    LIMIT = 1024          # the EVM's stack limit (Yellow Paper); the crate's constant is whatever the MIR compares with
     try:
+        # ---- at the limit: growing the stack is refused exactly when it already holds 1024 items -----------------------
+        for op in ("push", "duplicate"):
+            f = get(op)
+            for depth in (LIMIT - 1, LIMIT):
+                ex = eng.explorer(extra=stack_summaries())
+
+                def body_l(ctx, f=f, op=op, depth=depth):
+                    items = [Obj("operand", "RuntimeBoxedVal", index=i) for i in range(depth)]
+                    s = Obj("stk", "Vec<RuntimeBoxedVal>", items=list(items))
+                    cell = Cell(Agg("vm::state::stack::Stack", {0: s}), "stack")
+                    args = [Ref(cell, (), True)]
+                    args.append(Obj("operand", "RuntimeBoxedVal", index=99) if op == "push" else Int(z3.BitVecVal(0, 32), 32))
+                    r = ctx.run_fn(f, args)
+                    return r, s, ctx
+                for p in ex.explore(body_l):
+                    n_paths += 1
+                    if p.kind != "return":
+                        bad = "Stack::%s at depth %d: path ends with %s (%s)" % (op, depth, p.kind, p.msg[:50])
+                        continue
+                    r, s, ctx = p.ret
+                    okr = isinstance(r, Agg) and r.variant == "Ok"
+                    if okr != (depth < LIMIT):
+                        bad = "Stack::%s with %d items on the stack returns %s (the stack holds at most %d items)" % (op, depth, "Ok" if okr else "Err", LIMIT)
+                    elif len(s.items) != (depth + 1 if okr else depth):
+                        bad = "Stack::%s with %d items leaves %d items" % (op, depth, len(s.items))
         for op in ("push", "pop", "read", "duplicate", "swap"):
             f = get(op)
             for depth in depths:
@@ -536,9 +585,12 @@ def push_like(out, eng):
 
 def state_fork(out, eng):
     f = eng.fn(">::fork", file="src/vm/state/mod.rs")
-    ex = eng.explorer()
+    # only VMState's own code is followed; whatever else `fork` calls to build a component returns an arbitrary value,
+    # which can never be recognised as "the component of the original" below
+    ex = eng.explorer(havoc_unknown=True)
 
     def body(ctx):
+        ctx.inline_filter = lambda name: "src/vm/state/mod.rs" in name
         cell = Cell(Lazy("vm::state::VMState", "st"), "st")
         r = ctx.run_fn(f, [Ref(cell, ()), Int(z3.BitVec("fork_point", 32), 32)])
         return r, cell, ctx
